@@ -180,6 +180,9 @@ func (s *Scen) syncMsgHistories(tier string, rng *rand.Rand) []*History {
 			}
 		}
 		for _, pos := range positions[:min(nCorrupt, len(positions))] {
+			if boundary {
+				break // the corruption catalogue runs on the other sites
+			}
 			hm := s.honestSyncMsg(site, pos)
 			h := s.syncMsgStep(hm)
 			var vars []*syncMsg
@@ -420,11 +423,19 @@ func (s *Scen) contribHistories(tier string, rng *rand.Rand) []*History {
 			if sub >= 2 {
 				part := s.honestContrib(site, subIndex, aggPos, []int{aggPos})
 				part.desc = "honest:single-participant"
+				if part.variant == "" {
+					part.variant = "single-participant"
+				} else {
+					part.variant += "+single-participant"
+				}
 				ps := s.contribStep(part)
 				out = append(out, &History{Name: "partial-then-full " + tag, Steps: []*Step{ps, clone(h)}})
 			}
 			if int(subIndex) >= nCorrupt && !(s.Big && len(non) > 0 && !nonSelCovered) {
 				continue
+			}
+			if hm.variant == "period-boundary" {
+				continue // the corruption catalogue runs on the other sites
 			}
 			var vars []*contribMsg
 			add := func(desc string, f func(m *contribMsg) bool) {
